@@ -30,11 +30,11 @@ KEYS = tuple(FLOORS["quick"].keys()) + ("tb_cases", "trtb_cases", "exact_cases",
 
 
 def plan(tier):
-    return {"shards": 4, "timeout": 900} if tier == "quick" else {"shards": 16, "timeout": 3000}
+    return {"shards": 4, "timeout": 900} if tier == "quick" else {"shards": 16, "timeout": 3400}
 
 
 def ncases(tier):
-    return 1500 if tier == "quick" else 9000
+    return 1500 if tier == "quick" else 40000
 
 
 def gen_case(rng, i):
